@@ -26,6 +26,10 @@ type Result struct {
 type evaluator struct {
 	root any
 	res  *Result
+	// mut: 0 = slices as Get reads them (the property); 1, 2, 3 = the readings found in the
+	// mutation code (see mutSlice). Only used to attribute discrepancies to the recorded
+	// finding C13-K1.
+	mut int
 }
 
 func (ev *evaluator) feat(f string) { ev.res.Feat[f] = true }
@@ -36,6 +40,80 @@ func Eval(p Path, data any) *Result {
 	ev := &evaluator{root: data, res: res}
 	res.Locs = ev.path(p, data, nil, true)
 	return res
+}
+
+// EvalMutationReading evaluates the path with slices read the way jp's Set / Del / Remove /
+// Modify read them (reading 1, 2 or 3, see mutSlice).
+func EvalMutationReading(p Path, data any, reading int) *Result {
+	res := &Result{Ordered: true, Feat: map[string]bool{}}
+	ev := &evaluator{root: data, res: res, mut: reading}
+	res.Locs = ev.path(p, data, nil, true)
+	return res
+}
+
+// mutSlice: defaults 0 / -1 / 1, negative bounds count from the end, the end is inclusive,
+// an end beyond the array is the last index, a start outside the array selects nothing.
+// reading 1 (jp/modify.go, every slice of Modify and the inner slices of Remove): a negative
+// step walks from the start down to the end. reading 2 (Slice.remove, the last fragment of
+// Remove): a negative step is anchored at the end. reading 3 (jp/set.go, Set and Del): the end
+// is first moved to start + (end-start)/step*step with Go's truncating division, so a bound
+// pair in the wrong direction for the step selects the start alone when they are less than
+// a step apart.
+func mutSlice(s []int, n, reading int, last bool) []int {
+	start, end, step := 0, -1, 1
+	if len(s) > 0 {
+		start = s[0]
+	}
+	if len(s) > 1 {
+		end = s[1]
+	}
+	if len(s) > 2 {
+		step = s[2]
+	}
+	if start < 0 {
+		start += n
+	}
+	if end < 0 {
+		end += n
+	}
+	if start < 0 || end < 0 || n <= start || step == 0 {
+		return nil
+	}
+	if n <= end {
+		end = n - 1
+	}
+	var out []int
+	if reading == 3 {
+		end = start + ((end - start) / step * step)
+		if step > 0 {
+			for i := start; i <= end; i += step {
+				out = append(out, i)
+			}
+		} else {
+			for i := end; i <= start; i -= step {
+				out = append(out, i)
+			}
+		}
+		return out
+	}
+	if step > 0 {
+		for i := start; i <= end; i += step {
+			out = append(out, i)
+		}
+		return out
+	}
+	if reading == 1 || !last { // anchored at the start: start, start+step, ... down to end
+		for i := start; i >= end; i += step {
+			out = append(out, i)
+		}
+		return out
+	}
+	for i := start; i >= end; i-- { // anchored at the end
+		if (i-end)%(-step) == 0 {
+			out = append(out, i)
+		}
+	}
+	return out
 }
 
 func extend(path []any, step any) []any {
@@ -200,6 +278,9 @@ func (ev *evaluator) descendants(l Loc, out []Loc) []Loc {
 // bounds count from the end, a negative step walks downwards" as written out in
 // DESIGN.md section 3.6.
 func (ev *evaluator) sliceIndexes(s []int, n int, pos string) []int {
+	if ev.mut != 0 {
+		return mutSlice(s, n, ev.mut, pos == "last")
+	}
 	start, end, step := 0, MaxEnd, 1
 	if len(s) > 0 {
 		start = s[0]
